@@ -13,6 +13,7 @@ from vf.rigs.env import Env
 from vf.runner import Ob
 
 LEVEL = "other"
+TECHNIQUE = ('CrossHair (z3) on the real path normalisation with a symbolic table location + symx over solver-chosen operation histories on real backends for each location spelling')
 EXPLANATION = (
     "CrossHair/z3 over the real path normalisation with a symbolic table location (<= 6 chars) and file name; "
     "symx/z3 exploration of all operation histories up to the length bound (operation kinds, targets, grace "
